@@ -121,7 +121,7 @@ class FilesLeg(object):
             idvals = []
             for i in range(n):
                 rich = draw(st.integers(0, 9)) < 8
-                r = draw(S.record(style, min_n=2 if rich else 0, max_n=4, allow_dot=not gtf_infer,
+                r = draw(S.record(style, min_n=2 if rich else 0, max_n=4, allow_dot=not gtf_infer, empty_items=not d["repeated"],
                                   keys=st.one_of(S.word_key, st.sampled_from(["Note", "k2"]))))
                 # never let generated keys clash with the id-bearing ones
                 r["attrs"] = [a for a in r["attrs"] if a[0] not in ("ID", "gene_id", "transcript_id")]
@@ -164,6 +164,7 @@ class FilesLeg(object):
                 "gtf_infer": gtf_infer,
                 "final_newline": draw(st.integers(0, 5)) > 0,
                 "input": draw(st.sampled_from(["plain", "plain", "plain", "crlf", "gz-crlf"])),
+                "toggled_before": draw(st.integers(0, 9)) == 0,
             }
 
         return case().filter(_domain_ok)
@@ -219,6 +220,17 @@ class FilesLeg(object):
         if d["style"] == "gtf" and not case["gtf_infer"]:
             kwargs.update(disable_infer_genes=True, disable_infer_transcripts=True)
         dbpath = ":memory:" if case["memory"] else ctx.path("out.db")
+        if case.get("toggled_before"):
+            # the percent-escape switch was on for an earlier print in this process and is off again
+            from gffutils import constants
+            from gffutils.feature import feature_from_line as _ffl
+
+            constants.ignore_url_escape_characters = True
+            try:
+                for l_ in [tm.render_line(r, d) for r in recs][:3]:
+                    str(_ffl(l_))
+            finally:
+                constants.ignore_url_escape_characters = False
         db = gffutils.create_db(path, dbpath, **kwargs)
 
         chosen, stable = tm.window_vote([(r, d) for r in recs], case["checklines"])
